@@ -201,8 +201,14 @@ func run(c *mc.Ctx) {
 	}
 	c.Rep.Extra["elements_coset_space"] = len(cel)
 	reps := cosetSpace(c, cel, tor, lam)
+	if reps == nil {
+		return
+	}
 	opsSpace(c, cel, reps)
 	uniformSpace(c)
+
+	// audit themes (notes/THEMES.md): aliasing, reuse, identity reached many ways, entropy readers, output shapes
+	themes(c, cel, tor, lam)
 }
 
 func decodeSpace(c *mc.Ctx, els []*element, tor [8]ref.Point, lam []*big.Int) {
@@ -285,7 +291,7 @@ func decodeSpace(c *mc.Ctx, els []*element, tor [8]ref.Point, lam []*big.Int) {
 	isIdentityState := func(p *curve.RistrettoPoint) bool { return isElem(p, ref.Identity()) }
 
 	alphed.Par(c, "decode", len(S), func(w *mc.W, i int) {
-		b := S[i]
+		b, intact := alphed.Guarded(S[i]) // handed over with spare capacity between guard bytes
 		why := reason(b)
 		pt, ok := ref.RistrettoDecode(b)
 		if ok != (why == "") {
@@ -373,6 +379,9 @@ func decodeSpace(c *mc.Ctx, els []*element, tor [8]ref.Point, lam []*big.Int) {
 				w.Fail("CompressedRistretto.UnmarshalBinary/receiver", fmt.Sprintf("after failed UnmarshalBinary(%x) the receiver is %x, not the identity encoding", b, u[:]), cas)
 			}
 		}
+		if !intact() {
+			w.Fail("caller-memory/decode", fmt.Sprintf("a decoder wrote to the caller's buffer around/in %x", S[i]), cas)
+		}
 		if i%401 == 0 {
 			w.Sample(map[string]string{"op": "decode", "bytes": hx(b), "class": cls})
 		}
@@ -389,7 +398,7 @@ func decodeSpace(c *mc.Ctx, els []*element, tor [8]ref.Point, lam []*big.Int) {
 		func(n int) []byte { return make([]byte, n) },
 		func(n int) []byte { return bytes.Repeat([]byte{0xff}, n) },
 		func(n int) []byte { b := make([]byte, n); copy(b, benc); return b },
-		func(n int) []byte { return append([]byte{}, bytes.Repeat(benc, 3)[:n]...) },
+		func(n int) []byte { return append([]byte{}, bytes.Repeat(benc, 10)[:n]...) },
 		func(n int) []byte {
 			if n == 0 {
 				return nil
@@ -397,9 +406,9 @@ func decodeSpace(c *mc.Ctx, els []*element, tor [8]ref.Point, lam []*big.Int) {
 			return mc.Bytes(c.Seed, "c11-len", n, n)
 		},
 	}
-	alphed.Par(c, "lengths", 71*len(contents), func(w *mc.W, i int) {
+	alphed.Par(c, "lengths", 301*len(contents), func(w *mc.W, i int) {
 		n, k := i/len(contents), i%len(contents)
-		b := contents[k](n)
+		b, intact := alphed.Guarded(contents[k](n))
 		_, ok := ref.RistrettoDecode(b) // false for every length != 32
 		cas := map[string]string{"len": fmt.Sprint(n), "bytes": hx(b)}
 		w.Eval(fmt.Sprintf("lengths/len32=%v", n == 32), n != 32)
@@ -444,6 +453,9 @@ func decodeSpace(c *mc.Ctx, els []*element, tor [8]ref.Point, lam []*big.Int) {
 			if err != nil && s != pre && !bytes.Equal(s[:], zero32) {
 				w.Fail("CompressedRistretto.SetBytes/receiver", fmt.Sprintf("failed SetBytes(%d bytes) modified the receiver to %x", n, s[:]), cas)
 			}
+		}
+		if !intact() {
+			w.Fail("caller-memory/lengths", fmt.Sprintf("a decoder wrote to the caller's buffer (input of %d bytes)", n), cas)
 		}
 	})
 
@@ -552,6 +564,18 @@ func decodeSpace(c *mc.Ctx, els []*element, tor [8]ref.Point, lam []*big.Int) {
 // Equal/ConditionalSelect on all pairs.
 func cosetSpace(c *mc.Ctx, els []*element, tor [8]ref.Point, lam []*big.Int) []*rrep {
 	var reps []*rrep
+	if !alphed.Guard(c, "representatives-build", func() {
+		buildReps(&reps, els, tor, lam)
+	}) {
+		return nil
+	}
+	c.Rep.Extra["representatives"] = len(reps)
+	return cosetChecks(c, els, reps)
+}
+
+func buildReps(out *[]*rrep, els []*element, tor [8]ref.Point, lam []*big.Int) {
+	var reps []*rrep
+	defer func() { *out = reps }()
 	for k, e := range els {
 		for _, cs := range []int{0, 2, 4, 6} {
 			a := e.p.Add(tor[cs])
@@ -571,7 +595,9 @@ func cosetSpace(c *mc.Ctx, els []*element, tor [8]ref.Point, lam []*big.Int) []*
 			mk("lib.Add(P-Q,Q+T)", false, &s)
 		}
 	}
-	c.Rep.Extra["representatives"] = len(reps)
+}
+
+func cosetChecks(c *mc.Ctx, els []*element, reps []*rrep) []*rrep {
 
 	alphed.Par(c, "representatives", len(reps), func(w *mc.W, i int) {
 		r := reps[i]
@@ -965,8 +991,13 @@ func uniformSpace(c *mc.Ctx) {
 	np := len(Phi)
 	alphed.Par(c, "uniform", np*np, func(w *mc.W, i int) {
 		i0, i1 := i/np, i%np
-		in := append(append([]byte{}, Phi[i0]...), Phi[i1]...)
+		in, intact := alphed.Guarded(append(append([]byte{}, Phi[i0]...), Phi[i1]...))
 		want := ref.RistrettoEncode(hs[i0].m.Add(hs[i1].m))
+		if ref.RistrettoEqual(hs[i0].m, hs[i1].m) {
+			// both Elligator images are the same element (equal halves, bit-255 twins, negated values, v and v+p):
+			// the sum is a doubling, which a non-unified addition gets wrong
+			w.Eval("uniform/colliding-halves", i0 != i1)
+		}
 		if i%257 == 0 {
 			// the cached halves are only an optimisation of the reference
 			if !bytes.Equal(want, ref.RistrettoEncode(ref.RistrettoFromUniform(in))) {
@@ -978,6 +1009,11 @@ func uniformSpace(c *mc.Ctx) {
 			return hs[k].class == "square" && ref.FromLE(Phi[k]).Cmp(ref.P) < 0 && ref.FromLE(Phi[k]).Sign() != 0
 		}
 		w.Eval("uniform/"+hs[i0].class+"+"+hs[i1].class, !(plain(i0) && plain(i1)))
+		defer func() {
+			if !intact() {
+				w.Fail("caller-memory/uniform", fmt.Sprintf("SetUniformBytes/SetRandom wrote to the caller's buffer (%x)", in), nil)
+			}
+		}()
 		var p curve.RistrettoPoint
 		p.Set(curve.RISTRETTO_BASEPOINT_POINT)
 		ret, err := p.SetUniformBytes(in)
@@ -1015,11 +1051,17 @@ func uniformSpace(c *mc.Ctx) {
 		}
 	}
 	c.Require("uniform/D=0+D=0", 4)
+	c.Require("uniform/colliding-halves", int64(np+40))
 	c.Require("uniform/D=0+square", 4)
 	c.Require("uniform/nonsquare+D=0", 4)
 
-	alphed.Par(c, "uniform-lengths", 131, func(w *mc.W, n int) {
-		b := mc.Bytes(c.Seed, "c11-uniform-len", n, n)
+	alphed.Par(c, "uniform-lengths", 301, func(w *mc.W, n int) {
+		b, intact := alphed.Guarded(mc.Bytes(c.Seed, "c11-uniform-len", n, n))
+		defer func() {
+			if !intact() {
+				w.Fail("caller-memory/uniform", fmt.Sprintf("SetUniformBytes wrote to the caller's buffer (%d bytes)", n), nil)
+			}
+		}()
 		var p curve.RistrettoPoint
 		_, err := p.SetUniformBytes(b)
 		w.Eval(fmt.Sprintf("uniform-lengths/len64=%v", n == 64), n != 64)
